@@ -581,4 +581,17 @@ def records(ctx):
     return _r(ctx)
 
 
-RULES = [no_stale, records, list_space, record_fresh, operand_attr, parabasal, distortion, radii]
+ARG_EXC = {
+    ('ImageSurface.__init__', 'Surface.__init__', 'material_post',
+     'material_pre'): 'the image space is one medium on both sides',
+    ('ObjectSurface.__init__', 'Surface.__init__', 'material_pre',
+     'material_post'): 'the object space is one medium on both sides',
+}
+
+
+def arg_names_rule(ctx):
+    from .common import arg_names
+    return arg_names(ctx, 'ARG-NAMES', lambda g: True, ARG_EXC, 600)
+
+
+RULES = [no_stale, records, arg_names_rule, list_space, record_fresh, operand_attr, parabasal, distortion, radii]
